@@ -32,7 +32,9 @@ fn texts() -> Vec<&'static str> {
          // a line feed right after a backslash, and the other way round (escape sequences that touch)
          "bs-lf\\\nend", "lf-bs\n\\end", "bsbs-lf\\\\\nend", "quote-lf\"\nend",
          // a backslash followed by each letter that JSON uses in an escape (n is the subject of an open finding, see above)
-         "C:\\temp\\report", "bs-r\\rx", "bs-b\\bx", "bs-f\\fx", "bs-u\\u0041x", "bs-solidus\\/x", "bs-quote\\\"x"]
+         "C:\\temp\\report", "bs-r\\rx", "bs-b\\bx", "bs-f\\fx", "bs-u\\u0041x", "bs-solidus\\/x", "bs-quote\\\"x",
+         // multi-byte characters BEFORE a character that is escaped (byte offsets and character positions differ from there on)
+         "caf\u{e9} \"quoted\"", "unused variable \u{2018}x\u{2019}\nnext line", "C:\\Users\\Jos\u{e9}\\src", "\u{1F600}\"\u{1F600}\\\u{1F600}\n\u{1F600}", "\u{e9}\"", "\u{20ac}\u{20ac}\\x"]
 }
 
 fn meta(text: &str) -> MetadataWrapper {
